@@ -1570,6 +1570,35 @@ def run(index, rep, tier):
                           "%s builds the block's state alphabet from `%s`, which is still empty when the block has no FORMAT statement (the reader starts with no symbols and fills them only on DATATYPE= / SYMBOLS=): an alphabet without fundamental states never compiles its symbol map, and the first cell of the matrix raises TypeError: 'NoneType' object is not subscriptable from inside _read_character_states" % (fi.qualname, norm(a)))
         rep.floor("R20.24", "alphabets built from collected symbols", 1, n24)
 
+    # ---- R20.25 recursion on the document's nesting is fenced
+    with rep.section("R20.25"):
+        rep.rule("R20.25", "recursion on the document's nesting is fenced: a Newick / NEXUS reader method that calls itself once per nesting level of the text is entered, from its non-recursive caller, inside a try that catches RecursionError and raises an error of the reader's own family - `(((( ... ))))` nested a few thousand deep otherwise ends in a bare RecursionError from inside the library")
+        n25 = 0
+        for m in ("dendropy.dataio.newickreader", "dendropy.dataio.nexusreader", "dendropy.dataio.newickyielder", "dendropy.dataio.nexusyielder", "dendropy.dataio.phylipreader", "dendropy.dataio.fastareader"):
+            fns = index.functions_in_module(m)
+            rec = [f for f in fns if any(call_name(c) == f.name and isinstance(c.func, ast.Attribute) and norm(c.func.value) == "self" for c in calls_in(f.node))]
+            for f in rec:
+                for caller in fns:
+                    if caller is f:
+                        continue
+                    pm = None
+                    for c in calls_in(caller.node):
+                        if call_name(c) == f.name and isinstance(c.func, ast.Attribute):
+                            n25 += 1
+                            pm = pm or parent_map(caller.node)
+                            ok = _in_try_catching(pm, c, {"RecursionError", "RuntimeError"})
+                            if ok:
+                                # the handler raises one of the reader's own errors
+                                cur = c
+                                while cur is not None and not (isinstance(pm.get(cur), ast.Try) and cur in pm.get(cur).body):
+                                    cur = pm.get(cur)
+                                tr = pm.get(cur) if cur is not None else None
+                                hs = [h for h in (tr.handlers if tr is not None else []) if h.type is not None and any(getattr(t, "id", getattr(t, "attr", None)) in ("RecursionError", "RuntimeError") for t in (h.type.elts if isinstance(h.type, ast.Tuple) else [h.type]))]
+                                ok = bool(hs) and all(any(isinstance(x, ast.Raise) and x.exc is not None for x in ast.walk(h)) for h in hs)
+                            rep.check(ok, "R20.25", caller.qualname, "`%s` entered without a RecursionError fence" % f.name, fn_where(caller, c), "%s enters %s inside a RecursionError handler" % (caller.name, f.name),
+                                      "%s calls the recursive `%s` (one Python frame per nesting level of the text) outside any handler for RecursionError: a statement nested deeper than the interpreter's recursion limit - `(` repeated 3000 times - is answered with a bare RecursionError from inside the library instead of a data-parse error" % (caller.qualname, f.name))
+        rep.floor("R20.25", "entries into recursive reader methods", 1, n25)
+
 
 def _branch_calls_raiser(cfg, n):
     for lab, t in n.succ:
